@@ -85,7 +85,7 @@ def c02(ctx):
     else:
         cfgs = [dict(TS=0, TE=6, MaxSp=7, MRTSQ=tla_set([0, 6, 10, 20]), RISet="{FALSE, TRUE}"),
                 dict(TS=0, TE=7, MaxSp=8, MRTSQ=tla_set([0]), RISet="{FALSE, TRUE}"),
-                dict(TS=-3, TE=3, MaxSp=4, MRTSQ=tla_set([0, 6]), RISet="{FALSE, TRUE}"),
+                dict(TS=-3, TE=3, MaxSp=4, MRTSQ=tla_set([0, 16]), RISet="{FALSE, TRUE}"),
                 dict(TS=0, TE=10, MaxSp=3, MRTSQ=tla_set([0, 10]), RISet="{FALSE, TRUE}")]
     invs = ["Correct", "InRange", "ZeroAtShared", "MinDistIsGlobal", "CursorBounds", "Terminates", "Export"]
     for c in cfgs:
@@ -175,8 +175,10 @@ def c03(ctx):
     _multi(ctx, dict(N=3, TE=5, MaxSp=2, ThrCodes="{1, 12}", MRTS4=24, TAU4=0, Sample=5 if q else 12), ["filter", "sync_profile", "sync"],
            ["FilterEqualsProfile", "PooledEvents"], ["multi_abs", "filter_rel"],
            "filter / list forms with MRTS = 6 (window floor 1.5) and max_tau = 4: the indicator used for filtering agrees with the profile")
-    _multi(ctx, dict(N=2, TE=6, MaxSp=3, ThrCodes="{1}", MRTS4=0, TAU4=8, IdxMode='"none"'), ["sync_profile", "sync", "filter"],
+    _multi(ctx, dict(N=2, TE=6, MaxSp=3, ThrCodes="{1}", MRTS4=0, TAU4=4, IdxMode='"none"'), ["sync_profile", "sync", "filter"],
            ["PooledEvents"], ["multi_abs", "multi_forms"], "two trains handed over as a list, max_tau = 1")
+    _multi(ctx, dict(N=2, TE=9, MaxSp=3, ThrCodes="{1}", Sample=5 if q else 12), ["sync_profile", "sync"], [], ["multi_auto"],
+           "MRTS='auto' in the two-train and list forms, also on recordings of different length (threshold of the reconciled pair)")
     import traces as _traces
     _traces.validate_scan(ctx, "sync", ctx.seed + 103, 300 if ctx.tier == QUICK else 4000)
     ctx.assumptions += ["integer spike times, MRTS and max_tau on the quarter grid so that dt = tau ties are exact in floats",
@@ -382,9 +384,11 @@ HEAP_PROPS = ["XIsUnion", "OnlyReceiverChanges", "Commutes"]
 
 def _run_heap(ctx, kinds, backends=("py", "shim"), only_add=False):
     for kind in kinds:
-        for c in _heap_cfgs(ctx.tier, kind):
+        for ci, c in enumerate(_heap_cfgs(ctx.tier, kind)):
             c = dict(c)
             c["Kind"] = '"%s"' % kind
+            # in the second configuration base function 2 vanishes identically but keeps its breakpoints
+            c.setdefault("ZeroBase", 2 if ci == 1 else 0)
             if c["T0"] < 0:
                 c["T0"] = "<- Neg%d" % (-c["T0"])
             res = run_tlc("FuncObjects", c, HEAP_INVS, properties=HEAP_PROPS, view="View",
@@ -410,6 +414,9 @@ def _c12_add(ctx):
 def c09(ctx):
     """adding piecewise profiles = pointwise addition on the merged support; operand untouched; copies independent"""
     _run_heap(ctx, ["pwc", "pwl"])
+    # long inputs (hundreds of breakpoints): recorded adds against the sum the transcribed routines give
+    import traces as _traces
+    _traces.validate_add(ctx, ["pwc", "pwl"], ctx.seed + 401, 12 if ctx.tier == QUICK else 80)
     ctx.assumptions += ["generic rational piece values on integer breakpoints; every breakpoint pattern pair of the grid",
                         "histories are covered transition-wise: every reachable heap (<= MaxOps-1 operations) x every operation, "
                         "with an independence probe through the public API after each"]
@@ -462,6 +469,8 @@ def c11(ctx):
     """discrete profiles add by event and integrate over open intervals; smoothing"""
     _run_heap(ctx, ["disc"])
     _run_query(ctx, ["disc"])
+    import traces as _traces
+    _traces.validate_add(ctx, ["disc"], ctx.seed + 402, 8 if ctx.tier == QUICK else 60)
     ctx.assumptions += ["integer event times (events on the edge times included), generic rational values, multiplicities 1..3",
                         "smoothing: unit-contribution definition checked against the transcribed loop for k = 0, 1, 2"]
     return ctx.finish(rule="every heap transition of discrete functions + every (function, query); "
@@ -531,12 +540,17 @@ def _multi_effective(ctx, ex, what):
             continue
         tried = diff = 0
         import random
-        for r in random.Random(1).sample(ex, min(300, len(ex))):
+        # TLC's export order depends on worker scheduling: sort before sampling, so that the guard is deterministic
+        pool = sorted(ex, key=lambda r: repr((r["tr"], r["call"]["fn"], r["call"]["idx"], r["call"]["iv"], r["call"].get("thr"))))
+        for r in random.Random(1).sample(pool, min(400, len(pool))):
             if r["res"]["t"] == "error" or (kw == "mtau" and r["call"]["fn"] not in SYNC_FNS):
                 continue
             sts = cm.trains_of(r)
-            s1, a = impl.call(cm.invoke, r, sts, "idx")
-            s0, b = impl.call(cm.invoke, dict(r, **{kw: [0, 1]}), sts, "idx")
+            import contextlib
+            import io
+            with contextlib.redirect_stdout(io.StringIO()):      # the library prints debug output
+                s1, a = impl.call(cm.invoke, r, sts, "idx")
+                s0, b = impl.call(cm.invoke, dict(r, **{kw: [0, 1]}), sts, "idx")
             tried += 1
             if s1 == "ok" and s0 == "ok" and not cm.equal_results(cm.norm_result(r, a), cm.norm_result(r, b)):
                 diff += 1
@@ -627,6 +641,9 @@ def c17(ctx):
            ["FilterPartition", "FilterEqualsProfile"], ["multi_abs", "filter_rel"], "max_tau beyond half the recording")
     _multi(ctx, dict(N=2, MaxSp=3, ThrCodes="{1, 12, 11}", TE=5, TAU4=4), ["filter"],
            ["FilterPartition", "FilterEqualsProfile"], ["multi_abs", "filter_rel"], "N = 2")
+    # six trains: the levels k/5 of the profile are not all products k*(1/5) in doubles (3*(1/5.) > 0.6)
+    _multi(ctx, dict(N=6, TE=3, MaxSp=1, ThrCodes="{305, 205, 405}", Sample=2 if q else 3), ["filter"],
+           ["FilterPartition", "FilterEqualsProfile"], ["multi_abs"], "N = 6, thresholds k/5 hit exactly")
     # a longer recording with tight spikes: the automatic threshold (pooled over the whole list) changes coincidences
     _multi(ctx, dict(N=3, TE=9, MaxSp=3, ThrCodes="{1, 12}", Sample=8 if q else 20), ["filter"],
            ["FilterPartition", "FilterEqualsProfile"], ["multi_abs", "filter_rel"], "MRTS='auto' in the filter = the pooled threshold")
